@@ -44,10 +44,10 @@ var conds = []string{"v < 2", "a > 0", "c IS NULL", "v = 1"}
 // slots: number of child lists of each compound kind
 var slots = map[string]int{
 	"if": 1, "ifelse": 2, "ifelseif": 3, "case1": 1, "case2": 2, "cases": 2,
-	"while": 1, "repeat": 1, "loop": 1, "blk": 1,
+	"while": 1, "repeat": 1, "loop": 1, "loopb": 1, "blk": 1,
 }
 
-func isLoop(k string) bool { return k == "while" || k == "repeat" || k == "loop" }
+func isLoop(k string) bool { return k == "while" || k == "repeat" || k == "loop" || k == "loopb" }
 func isLabelled(k string) bool {
 	return isLoop(k) || k == "blk"
 }
@@ -64,8 +64,8 @@ func (n *Node) feature() []string {
 			f = append(f, "handler-"+n.H, "hbody-"+n.HB)
 		}
 		return f
-	case "leave", "iterate":
-		return []string{n.K}
+	case "loopb":
+		return []string{"loopb", "shadow"} // its block declares an own v
 	}
 	return []string{n.K}
 }
@@ -212,7 +212,7 @@ func (e *emitter) stmt(n *Node) {
 		e.line("WHEN %s THEN", conds[1])
 		e.body(n, 1)
 		e.line("END CASE;")
-	case "while", "repeat", "loop":
+	case "while", "repeat", "loop", "loopb":
 		e.loopLvl++
 		i := fmt.Sprintf("i%d", e.loopLvl)
 		lbl := fmt.Sprintf("l%d", e.loopLvl)
@@ -240,6 +240,21 @@ func (e *emitter) stmt(n *Node) {
 			e.line("SET %s = %s + 1;", i, i)
 			e.line("IF %s > a OR %s > 3 THEN LEAVE %s; END IF;", i, i, lbl)
 			e.list(n, 0)
+			e.indent--
+			e.line("END LOOP %s;", lbl)
+		case "loopb":
+			// a LOOP whose body is one BEGIN..END block with its own v (the loop's start is the
+			// block's start; LEAVE/ITERATE of the loop cross the block's scope)
+			e.line("%s: LOOP", lbl)
+			e.indent++
+			e.line("BEGIN")
+			e.indent++
+			e.line("DECLARE v INT DEFAULT 5;")
+			e.line("SET %s = %s + 1;", i, i)
+			e.line("IF %s > a OR %s > 3 THEN LEAVE %s; END IF;", i, i, lbl)
+			e.list(n, 0)
+			e.indent--
+			e.line("END;")
 			e.indent--
 			e.line("END LOOP %s;", lbl)
 		}
@@ -368,17 +383,20 @@ func alphabet(thorough bool) Alphabet {
 	if thorough {
 		a.Compounds = append(a.Compounds, &Node{K: "ifelseif"})
 	}
-	a.Compounds = append(a.Compounds, &Node{K: "case1"}, &Node{K: "case2"}, &Node{K: "cases"},
-		&Node{K: "while"}, &Node{K: "repeat"}, &Node{K: "loop"})
+	if thorough {
+		a.Compounds = append(a.Compounds, &Node{K: "case2"})
+	}
+	a.Compounds = append(a.Compounds, &Node{K: "case1"}, &Node{K: "cases"},
+		&Node{K: "while"}, &Node{K: "repeat"}, &Node{K: "loop"}, &Node{K: "loopb"})
 	a.Compounds = append(a.Compounds, blkVariants(thorough)...)
 	return a
 }
 
 func flowAlphabet() Alphabet {
 	a := Alphabet{MaxSize: 4, MaxDepth: 3}
-	a.Leaves = []string{"inc", "err", "nf", "sel"}
-	a.Compounds = []*Node{{K: "if", C: 0}, {K: "ifelse", C: 0}, {K: "case1"}, {K: "while"}, {K: "repeat"}, {K: "loop"},
-		{K: "blk"}, {K: "blk", Shadow: true}, {K: "blk", H: "cs", HB: "set"}, {K: "blk", H: "es", HB: "set"}, {K: "blk", H: "cn", HB: "set"}}
+	a.Leaves = []string{"inc", "err"}
+	a.Compounds = []*Node{{K: "if", C: 0}, {K: "repeat"}, {K: "loop"}, {K: "loopb"},
+		{K: "blk", Shadow: true}, {K: "blk", H: "cs", HB: "set"}, {K: "blk", H: "es", HB: "set"}}
 	return a
 }
 
@@ -520,7 +538,7 @@ func features(n *Node) []string {
 func uses(n *Node) (usesA, usesC bool) {
 	walk(n, func(x *Node) {
 		switch x.K {
-		case "while", "repeat", "loop", "seta", "callv":
+		case "while", "repeat", "loop", "loopb", "seta", "callv":
 			usesA = true
 		case "if", "ifelse":
 			if strings.Contains(conds[x.C], "a ") {
